@@ -98,6 +98,8 @@ const LOCALS: &[&str] = &[
   // around a change of date and around daylight-saving transitions (mirrored in oracles/tz_oracle.py, which leaves out the
   // zones in which such a local time is ambiguous or does not exist)
   "2021-01-01T22:30:00", "2021-01-01T23:30:00", "2021-01-02T00:30:00", "2021-01-02T01:30:00", "2021-03-14T01:30:00", "2021-03-14T03:30:00", "2021-03-28T00:30:00", "2021-03-28T01:30:00", "2021-03-28T03:30:00", "2021-03-28T04:45:00", "2021-10-31T00:30:00", "2021-10-31T03:30:00",
+  // centuries apart: differences beyond what 64 bits of nanoseconds hold
+  "1600-01-01T00:00:00", "2300-06-15T12:00:00",
 ];
 const FIRST_NEAR: usize = 6;
 
@@ -255,7 +257,10 @@ pub fn run() {
         }
       }
     }
-    for z in NAMED_ZONES {
+    // (the two local times centuries away are combined with offsets only: zone rules that far from today are extrapolated
+    // differently by different zone databases, which is not what the property is about)
+    let named: &[&str] = if l.starts_with("1600") || l.starts_with("2300") { &[] } else { NAMED_ZONES };
+    for z in named {
       let off = tz.get(*z).and_then(|row| row.get(*l)).and_then(|o| o.as_i64());
       if let Some(off) = off {
         let text = format!("{}@{}", l, z);
@@ -286,7 +291,8 @@ pub fn run() {
         expect(&run, &cnt, &format!("date-time-comparison:{}:{}", op, zone_class), &what, &evs[k](&s), &f(o).to_string(), json!({"engine":"c15","text":what}));
       }
       let what = format!("@\"{}\" - @\"{}\"", ta, tb);
-      expect(&run, &cnt, &format!("date-time-subtraction:{}", zone_class), &what, &e_sub(&s), &print_dt_duration(ia - ib), json!({"engine":"c15","text":what}));
+      let sub_class = if (ia - ib).abs() > i64::MAX as i128 { "difference-beyond-64-bits-of-nanoseconds".to_string() } else { zone_class.to_string() };
+      expect(&run, &cnt, &format!("date-time-subtraction:{}", sub_class), &what, &e_sub(&s), &print_dt_duration(ia - ib), json!({"engine":"c15","text":what}));
       // b <= a <= a
       let what = format!("@\"{}\" between @\"{}\" and @\"{}\"", ta, tb, ta);
       let exp = (ib <= ia).to_string();
